@@ -180,8 +180,17 @@ async def _scenario(loop, kind, size, connect, abort, followup, *, delay=1.0, ta
             fu = [(await raw.cmd("QUIT"))[0]]
         else:  # a complete transfer of another kind
             ctl.delays = {}
-            c1, _ = await raw.cmd("EPSV")
-            fu = [c1]
+            # *_SAME: on the listener the session already has, without a new EPSV (allowed once the server has closed and
+            # forgotten the aborted transfer's data connection; not attempted while an unused one may still be registered)
+            same = (followup.endswith("_SAME") and out["server_data_open"] == 0 and raw.passive_port is not None
+                    and connect != "late")  # late: the client's connection may have arrived after the ABOR, unused and registered
+            followup = followup.split("_")[0]
+            if same:
+                c1 = "229"
+                fu = ["same"]
+            else:
+                c1, _ = await raw.cmd("EPSV")
+                fu = [c1]
             if c1 == "229":
                 dr, dw = await raw.open_data()
                 await asyncio.sleep(0.2)
@@ -264,10 +273,12 @@ def judge(kind, size, connect, abort, followup, out, tag):
             bad("stored_not_old_plus_prefix")
     fu = out["followup"]
     ok = {"PWD": ["257"], "ABOR": ["226"], "QUIT": ["221"], "RETR": ["229", "150", ("data_ok", True), "226"],
-          "STOR": ["229", "150", "226", ("stored_ok", True)]}[followup]
+          "STOR": ["229", "150", "226", ("stored_ok", True)]}[followup.split("_")[0]]
+    if fu and fu[0] == "same":
+        ok = ["same"] + ok[1:]
     if fu != ok:
         detail["followup_result"] = fu
-        bad("followup_" + followup + "_misbehaves")
+        bad("followup_" + followup + ("_on_the_same_listener" if fu and fu[0] == "same" else "") + "_misbehaves")
 
 
 def grid(tier):
@@ -286,9 +297,9 @@ def grid(tier):
                     aborts.append(round(t, 4))
                     t += 0.5
                 for ab in aborts:
-                    fus = ["PWD", "RETR", "STOR", "ABOR", "QUIT"]
+                    fus = ["PWD", "RETR", "STOR", "ABOR", "QUIT", "RETR_SAME", "STOR_SAME"]
                     if tier == "quick":
-                        fus = [fus[(len(cases)) % 5], fus[(len(cases) + 2) % 5]]
+                        fus = [fus[(len(cases)) % 7], fus[(len(cases) + 3) % 7]]
                     for fu in fus:
                         cases.append((kind, size, connect, ab, fu))
     return cases
@@ -362,7 +373,7 @@ def replay_sweep(case):
 # ---------------------------------------------------------------- sampled
 SAMPLED = st.tuples(st.sampled_from(KINDS), st.integers(0, 17), st.sampled_from(["before", "late", "never"]),
                     st.one_of(st.sampled_from([-0.5, 0, 0.0005]), st.integers(1, 9000).map(lambda x: x / 1000.0)),
-                    st.sampled_from(["PWD", "RETR", "STOR", "ABOR", "QUIT"]), st.sampled_from([1.0, 0.3, 0.01, 0]),
+                    st.sampled_from(["PWD", "RETR", "STOR", "ABOR", "QUIT", "RETR_SAME", "STOR_SAME"]), st.sampled_from([1.0, 0.3, 0.01, 0]),
                     st.lists(st.integers(0, 255), max_size=30))
 
 
